@@ -21,6 +21,8 @@ type vmHH struct {
 	*vmH
 	gen  [3]int    // creations per key so far
 	data [3][]byte // model content of the live blob of each key
+
+	noRecreate bool // the history cannot re-create a removed key (cover not declared)
 }
 
 func (hh *vmHH) live(x *vmHandle) bool {
@@ -82,7 +84,9 @@ func (hh *vmHH) probe(x *vmHandle, ops []int) {
 	live := hh.live(x)
 	verif.Cover("probe-live", live)
 	verif.Cover("probe-stale", !live)
-	verif.Cover("probe-stale-key-recreated", !live && hh.m.blobs[x.k].present)
+	if !hh.noRecreate {
+		verif.Cover("probe-stale-key-recreated", !live && hh.m.blobs[x.k].present)
+	}
 	op := ops[verif.Choice("hop", len(ops))]
 	switch op {
 	case vhRead, vhReadAt:
@@ -251,6 +255,93 @@ func VerifMemStaleHandles() {
 		next = verif.Choice("handle", 2)
 	}
 	hh.probe(handles[next], second)
+	hh.check()
+	hh.checkContents()
+}
+
+// VerifMemOverReservedHandles: the history harness with a Create whose size
+// argument may exceed the bytes written (reserved = written + 0..1|3, 0..2
+// bytes written before completion, symbolic bytes). Handles are taken at every
+// stage of the blob's life — from Create, from an Open while the blob is still
+// incomplete, from an Open after MarkComplete — and all of them are kept across
+// completion and a symbolic history of {nothing, Delete, eviction pressure by
+// another Create, ban, re-Create of the key}. Then two probes on any of the
+// handles: a stale handle (whenever it was opened) fails with ErrEvicted; live
+// handles all refer to the same bytes (a write through one is read through any
+// other and through a fresh Open, Stat agrees).
+func VerifMemOverReservedHandles() {
+	capacity := verif.Uint64("capacity")
+	hh := &vmHH{vmH: vmNew(capacity, 2)}
+	nw := verif.Choice("written", 3)
+	extra := verif.Choice("over-reserved", verif.Bound("max-over-reserved", 1, 3)+1)
+	size := uint64(nw + extra)
+	hc := hh.create(0, size)
+	verif.Assume(hc != nil)
+	he := hh.open(0) // opened while incomplete
+	verif.Assume(he != nil)
+	if nw > 0 {
+		w := verif.Bytes("d", nw)
+		n, err := hc.f.Write(w)
+		verif.Assert("initial-write", err == nil && n == nw)
+		hh.modelWriteAt(0, w, 0)
+		hc.off = int64(nw)
+	}
+	verif.Assert("complete", hh.s.MarkComplete(vmKeys[0]) == nil)
+	hh.m.markComplete(0)
+	hh.check()
+	hl := hh.open(0) // opened after completion
+	verif.Assume(hl != nil)
+	handles := []*vmHandle{hc, he, hl}
+	verif.Cover("over-reserved-and-written", nw > 0 && extra > 0)
+	steps := verif.Bound("steps", 1, 2)
+	nops := 5
+	if steps < 2 { // a re-creation needs a removal first
+		nops = 4
+		hh.noRecreate = true
+	}
+	for i := 0; i < steps; i++ {
+		switch verif.Choice("op", nops) {
+		case 0: // the blob stays
+		case 1:
+			err := hh.s.Delete(vmKeys[0])
+			verif.Assert("delete-result", vmClass(err) == hh.m.delete(0, storelib.BlobScopeAny))
+		case 2: // pressure: create the other key
+			hh.create(1, uint64(1+verif.Choice("size", 2)))
+		case 3:
+			err := hh.s.BanEviction(vmKeys[0])
+			verif.Assert("ban-result", vmClass(err) == hh.m.ban(0, storelib.BlobScopeAny))
+		case 4: // re-create key 0 with other content (succeeds only once it is gone)
+			if x := hh.create(0, 2); x != nil {
+				e := verif.Bytes("e", 1)
+				_, err := x.f.Write(e)
+				verif.Assert("rewrite", err == nil)
+				hh.modelWriteAt(0, e, 0)
+			}
+		}
+		hh.check()
+	}
+	verif.Cover("over-reserved-blob-gone", nw > 0 && extra > 0 && !hh.live(hc))
+	verif.Cover("over-reserved-blob-alive", nw > 0 && extra > 0 && hh.live(hc))
+	// quick: first probe ReadAt / Write / Size on any handle, second probe Read /
+	// Size on the next handle; thorough: every operation, any two handles.
+	firstOps := []int{vhReadAt, vhWrite, vhSize}
+	secondOps := []int{vhRead, vhSize}
+	anyTwo := verif.Bound("probe-all-ops-any-two-handles", 0, 1) == 1
+	if anyTwo {
+		firstOps = []int{vhRead, vhReadAt, vhWrite, vhWriteAt, vhSeek, vhSize}
+		secondOps = []int{vhRead, vhReadAt, vhSize}
+	}
+	first := verif.Choice("handle", 3)
+	hh.probe(handles[first], firstOps)
+	next := (first + 1) % 3
+	if anyTwo {
+		next = verif.Choice("handle", 3)
+	}
+	hh.probe(handles[next], secondOps)
+	if hh.m.blobs[0].present {
+		sz, err := hh.s.Stat(vmKeys[0])
+		verif.Assert("stat-is-model-length", err == nil && sz == int64(len(hh.data[0])))
+	}
 	hh.check()
 	hh.checkContents()
 }
